@@ -5,4 +5,6 @@ cd /repo && git status --short | grep -q . && { echo "/repo not clean"; exit 9; 
 git -C /repo apply /verif/seeded/$M/patch.diff || exit 8
 cd /verif && VERIF_EVIDENCE_SKIP=1 timeout 1500 ./check $P --tier $T > /tmp/mutrun.$M.$P.log 2>&1; rc=$?
 git -C /repo checkout -- .
+# regenerate the translator output from the restored tree (Gen/*.v are committed files)
+/verif/_build/bin/goextract /repo/src /verif/coq/Gen >/dev/null 2>&1; /verif/_build/bin/goflow /repo/src /verif/coq/Gen/Flow.v >/dev/null 2>&1
 echo "$M on $P: rc=$rc $(grep -c '^VIOLATION' /tmp/mutrun.$M.$P.log) violation line(s): $(grep '^VIOLATION' /tmp/mutrun.$M.$P.log | head -2 | tr '\n' ' ')"
